@@ -16,6 +16,7 @@ import (
 	"testing"
 
 	"github.com/PapaCharlie/go-restli/v2/restli"
+	"github.com/PapaCharlie/go-restli/v2/restlidata/generated/com/linkedin/restli/common"
 
 	"verif/sim/harness"
 	"verif/sim/kern"
@@ -52,6 +53,9 @@ func (f *simFilter) PreRequest(req *http.Request) (context.Context, error) {
 	}()
 	if call != nil {
 		call.addFilt(FilterEvent{f.idx, "pre", info})
+		if f.idx == 0 {
+			call.setView(reqView(req))
+		}
 	}
 	if f.fail {
 		return nil, errors.New("sim: filter refused the request")
@@ -99,7 +103,10 @@ func newWorld(c *harness.Ctx, sim *kern.Sim, nslots int) *World {
 	w.res = pick
 	// filters
 	var filters []restli.Filter
-	if cfg["filters"] != "" {
+	if cfg["filters"] == "view" {
+		w.nfilt = 1
+		filters = append(filters, &simFilter{w: w, idx: 0})
+	} else if cfg["filters"] != "" {
 		w.nfilt = c.Choose(4, "nfilters")
 		for i := 0; i < w.nfilt; i++ {
 			filters = append(filters, &simFilter{w: w, idx: i})
@@ -174,11 +181,20 @@ func rpc(c *harness.Ctx) {
 	plan := make([][]*Call, ntasks)
 	total := 0
 	w := newWorld(c, sim, 0)
+	var sharedErrs []*common.ErrorResponse
+	if c.Cfg["outcomes"] == "errors" {
+		for i := 0; i < c.Choose(3, "nshared"); i++ {
+			sharedErrs = append(sharedErrs, genErrorResponse(c, 900+i))
+		}
+	}
 	for t := range plan {
 		n := 1 + c.Choose(4, "ncalls")
 		for i := 0; i < n; i++ {
 			rd := w.res[c.Choose(len(w.res), "callres")]
 			if call := w.planCall(rd, nil); call != nil {
+				if c.Cfg["outcomes"] == "errors" {
+					w.drawOutcome(call, sharedErrs)
+				}
 				plan[t] = append(plan[t], call)
 				total++
 			}
@@ -309,6 +325,28 @@ func checkCall(c *harness.Ctx, w *World, call *Call, world string) {
 	if faulty {
 		c.Probe("call-under-fault")
 		// under lossy faults: an error, or exactly the model's value — never a wrong or partial one
+		fs := strings.Join(faultsOf(call), ",")
+		for _, must := range []string{"req-lost", "resp-lost", "resp-trunc", "cancel", "strip-version"} {
+			if strings.Contains(fs, must) && call.Err == nil {
+				c.Fail("C02", "fault-swallowed", "fault-swallowed:"+must+":"+call.Method, "%s returned success although fault %q hit its exchange (a lost, cut or foreign-version response must surface as an error)", where, must)
+				return
+			}
+		}
+		if strings.Contains(fs, "req-lost") && right != 0 {
+			c.Fail("C02", "invoked-without-delivery", "invoked-without-delivery", "%s: the request was lost before delivery but the resource ran", where)
+			return
+		}
+		if strings.Contains(fs, "strip-version") && call.Out.Kind == "value" && fs == "strip-version" {
+			var uv *restli.UnsupportedRestLiProtocolVersion
+			if !errors.As(call.Err, &uv) {
+				c.Fail("C02", "version-error", "version-error:"+call.Method, "%s: the response lost its protocol-version header; expected UnsupportedRestLiProtocolVersion, got %T %v", where, call.Err, call.Err)
+				return
+			}
+		}
+		if strings.HasPrefix(fs, "cancel") && !errors.Is(call.Err, context.Canceled) {
+			c.Fail("C02", "cancel-error", "cancel-error:"+call.Method, "%s: the caller's context was cancelled; the error does not wrap context.Canceled: %T %v", where, call.Err, call.Err)
+			return
+		}
 		if call.Err != nil {
 			return
 		}
@@ -345,8 +383,14 @@ func checkCall(c *harness.Ctx, w *World, call *Call, world string) {
 			return
 		}
 	}
+	if !faulty {
+		checkOutcome(c, w, call, where)
+		if c.Failed() {
+			return
+		}
+	}
 	if call.Out.Kind != "value" {
-		return // error outcomes are C08's subject (checkErrorOutcome)
+		return
 	}
 	if call.Err != nil {
 		c.Fail("C02", "spurious-error", "spurious-error:"+call.Res.Kind+"."+call.Method+":"+errSig(call.Err), "%s: the resource succeeded but the client returned an error: %v\n status %d body %q", where, call.Err, lastEx(call).Status, clip(lastEx(call).RespBody, 300))
@@ -486,5 +530,5 @@ func pathSig(p string) string {
 }
 
 func TestS4(t *testing.T) {
-	harness.Main(t, map[string]harness.Scenario{"rpc": rpc})
+	harness.Main(t, map[string]harness.Scenario{"rpc": rpc, "tunnel": tunnel})
 }
